@@ -29,6 +29,7 @@ type PreJob struct {
 }
 
 var retentionCounts = []int{0, 0, 1, 2, 3, 5}
+
 // (20 ms: every job of the history outlives it - jobs that wait or run must stay all the same, and a finished job
 // that was older than the period when the save began must be gone)
 var retentionPeriods = []time.Duration{0, 0, time.Hour, 24 * time.Hour, 20 * time.Millisecond}
